@@ -63,6 +63,8 @@ func main() {
 // extra commands registered by individual cores (schedulers etc.)
 var extras = map[string]func(args []string){}
 
+var timeoutsSeen int
+
 func extraCommand(name string, args []string) bool {
 	f, ok := extras[name]
 	if ok {
@@ -100,6 +102,16 @@ func runAll() {
 		res := safeHandle(c, ws[1:])
 		fmt.Fprintln(out, res)
 		out.Flush()
+		// a stream on which the implementation keeps missing its deadlines is cut short: every
+		// further event would cost another deadline (the check reports the early end as a crash
+		// at this line, with the ops so far as the replay)
+		if strings.Contains(res, "TIMEOUT") || strings.Contains(res, "hang") {
+			timeoutsSeen++
+			if timeoutsSeen > 12 {
+				fmt.Fprintln(os.Stderr, "harness: too many timeouts, giving up on this stream")
+				os.Exit(3)
+			}
+		}
 		if err != nil {
 			break
 		}
